@@ -116,10 +116,9 @@ fn check_bytes_uspace(maxlen: u64, faults: u8, eintr: u8) {
 io_stubs! { #[kani::unwind(6)] fn c05_bytes_uspace_short_q() { check_bytes_uspace(3, 0, 0); } }
 io_stubs! { #[kani::unwind(6)] fn c05_bytes_uspace_eintr_q() { check_bytes_uspace(2, 0, 1); } }
 io_stubs! { #[kani::unwind(6)] fn c05_bytes_uspace_fault_q() { check_bytes_uspace(2, 1, 0); } }
-// thorough tier: one dimension deepened per harness (the combined 6-byte / 2-fault / 2-EINTR harness ran out of memory at 24 GB)
-io_stubs! { #[kani::unwind(8)] fn c05_bytes_uspace_short_t() { check_bytes_uspace(5, 0, 0); } }
-io_stubs! { #[kani::unwind(8)] fn c05_bytes_uspace_eintr_t() { check_bytes_uspace(3, 0, 2); } }
-io_stubs! { #[kani::unwind(8)] fn c05_bytes_uspace_fault_t() { check_bytes_uspace(3, 1, 0); } }
+// No thorough-tier twin: every deeper bound tried for copy_bytes_uspace (6 bytes/2 faults/2 EINTR at 24 GB; 5, then 4 bytes of
+// short reads, 3 bytes with one EINTR or one fault at 20-26 GB) ran CBMC out of memory.  The size-independent claims are the
+// inductive E2 lemmas (p_libfs.uspace_loops); the Kani harnesses above stay the byte-accurate, bounded part.
 
 /// C01/C11 (L1): allocate_file sizes the destination to exactly `len`, new range reads as zero.
 io_stubs! {
